@@ -208,6 +208,32 @@ pub fn c20_run_case(c: &C20Case, obs: &mut Obs) -> Result<u64, String> {
         obs.label_if(1, matches!(xt, XTime::Boundary { .. }));
         obs.label_if(2, matches!(xt, XTime::ManyCycles | XTime::E19 | XTime::Max | XTime::TwoPow64));
     }
+    // merged timeline of this timeline and a plain one: aggregate queries (they compare repeats and
+    // durations) and evaluation
+    {
+        let plain = TlDesc { timing: Timing { cycle: 1.0, delay: 0.0, repeat: Rep::Times(3), reverse: false }, default_ez: Ez::Linear, kfs: vec![KfDesc { pos: 1.0, a: None, b: Some(2.0), c: None, d: None, ez: None }] };
+        let mut merged_opt = None;
+        catch("merged build", &mut || merged_opt = Some(MergedTimeline::of([c.tl.build(), plain.build()])))?;
+        let merged = merged_opt.unwrap();
+        let mut q = (0u32, 0u32, mina::Repeat::None, None);
+        catch("merged metadata", &mut || q = (merged.delay().to_bits(), merged.duration().to_bits(), merged.repeat(), merged.cycle_duration().map(|x| x.to_bits())))?;
+        mix(q.0 as u64);
+        mix(q.1 as u64);
+        mix(match q.2 {
+            mina::Repeat::None => 1,
+            mina::Repeat::Times(n) => 2 + n as u64,
+            mina::Repeat::Infinite => u64::MAX,
+        });
+        mix(q.3.unwrap_or(7) as u64);
+        if let Some(xt) = c.times.first() {
+            let t = xt.resolve(&tm);
+            let mut target = P { a: 0.5, b: -0.5, c: 1, d: 1, s: 0.0, z: 0 };
+            catch(&format!("merged update at t={t:?}"), &mut || merged.update(&mut target, t))?;
+            for b in target.bits() {
+                mix(b);
+            }
+        }
+    }
     // animator: build, advance with the same alphabet, query
     let second = TlDesc { timing: Timing { cycle: 1.0, delay: 0.0, repeat: Rep::None, reverse: false }, default_ez: Ez::Linear, kfs: vec![KfDesc { pos: 1.0, a: Some(3.0), b: None, c: None, d: None, ez: None }] };
     let desc = AnimDesc {
